@@ -195,7 +195,17 @@ def span_case(draw):
                        'elec': {'E': levels[n + 1 + k] / 1000.0, 'spin': 0}})
         else:
             ts.append(None)
-    return {'species': species, 'ts': ts, 'T': draw(st.floats(250, 1500)), 'P': draw(gen.logf(1e-3, 1e2)),
+    # the walk through the intermediates: mostly a chain, sometimes a step back to an earlier (non-adjacent) intermediate
+    walk = [0]
+    nxt = 1
+    for k in range(n):
+        back = [i for i in range(nxt) if i != walk[-1]]
+        if back and k >= 2 and draw(st.integers(0, 5)) == 0:
+            walk.append(draw(st.sampled_from(back)))
+        else:
+            walk.append(nxt)
+            nxt += 1
+    return {'species': species, 'ts': ts, 'walk': walk, 'T': draw(st.floats(250, 1500)), 'P': draw(gen.logf(1e-3, 1e2)),
             'P2': draw(gen.logf(1e-3, 1e2)), 'T2': draw(st.floats(250, 1500)),
             'units': draw(st.sampled_from(['kJ/mol', 'eV', 'kcal/mol'])), 'coef': draw(st.sampled_from([1.0, 1.0, 2.0]))}
 
@@ -207,8 +217,9 @@ def check_span(case, ctx):
     tsp = [None if d is None else gen.build_species(d) for d in case['ts']]
     cf = case['coef']
     rxns = []
+    walk = case.get('walk') or list(range(len(tsp) + 1))
     for k in range(len(tsp)):
-        rxns.append(Reaction(reactants=[sp[k]], reactants_stoich=[cf], products=[sp[k + 1]], products_stoich=[cf],
+        rxns.append(Reaction(reactants=[sp[walk[k]]], reactants_stoich=[cf], products=[sp[walk[k + 1]]], products_stoich=[cf],
                              transition_state=None if tsp[k] is None else [tsp[k]],
                              transition_state_stoich=None if tsp[k] is None else [cf]))
     T, u = case['T'], case['units']
@@ -221,18 +232,20 @@ def check_span(case, ctx):
         path_states = []  # distinct states along the path
         for k, r in enumerate(rxns):
             if k == 0:
-                path_states.append(G(sp[k]))
+                path_states.append(G(sp[walk[k]]))
             if tsp[k] is not None:
                 path_states.append(G(tsp[k]))
-            path_states.append(G(sp[k + 1]))
+            path_states.append(G(sp[walk[k + 1]]))
         i_max = int(np.argmax(path_states))
         i_min = int(np.argmin(path_states))
         e = path_states[i_max] - path_states[i_min]
         if i_max < i_min:
             e += path_states[-1] - path_states[0]
-        # generic position only: ties between *different* states would make "comes before" ambiguous
-        ps = sorted(path_states)
-        amb = any(abs(a - b) < 1e-9 * (1 + abs(a)) for a, b in zip(ps, ps[1:]))
+        # generic position only: the highest and the lowest state must each be attained once (a tie - two states of equal
+        # energy, or a revisited state that is an extremum - would make "comes before" ambiguous)
+        hi, lo = path_states[i_max], path_states[i_min]
+        amb = sum(1 for v in path_states if abs(v - hi) < 1e-9 * (1 + abs(hi))) > 1 or \
+            sum(1 for v in path_states if abs(v - lo) < 1e-9 * (1 + abs(lo))) > 1
         return e, i_max < i_min, max(abs(x) for x in path_states) + 1, amb
     expect, before, scale, amb = oracle(T, P)
     if amb:
@@ -252,11 +265,11 @@ def check_span(case, ctx):
         ctx.fail('C19.span/sequence-follows-callers-list', '%d steps given, %d held after the caller appended to its list' % (
             len(rxns), len(seq_obj.reactions)))
     net = Network(reactions=rxns)
-    path = [state_to_set([sp[0]], [cf])]
+    path = [state_to_set([sp[walk[0]]], [cf])]
     for k in range(len(rxns)):
         if tsp[k] is not None:
             path.append(state_to_set([tsp[k]], [cf]))
-        path.append(state_to_set([sp[k + 1]], [cf]))
+        path.append(state_to_set([sp[walk[k + 1]]], [cf]))
     got = net.get_E_span(path=path, units=u, T=T, P=P)
     ctx.close('C19.span/Network.get_E_span', got, expect, rtol=1e-11, atol=1e-11 * scale)
     from pmutt import constants as c
